@@ -8,16 +8,19 @@ import (
 // unit is one entry of the enumerated construct catalogue: a small program around one
 // language construct. Its violation key is unit:<name>.<form>:<kind>, stable across seeds.
 type unit struct {
-	name   string
-	feats  string // comma separated syntactic feature tags
-	classy bool   // declares classes/interfaces: namespaced form only (property quantifier)
-	wrap   bool   // additionally run with the body inside a function (local frame)
-	src    string
+	name    string
+	feats   string // comma separated feature tags, in addition to the ones computed from the source
+	classy  bool   // declares classes/interfaces: namespaced form only (property quantifier)
+	wrap    bool   // additionally run with the body inside a function (local frame)
+	witness string // slug of the defect this unit demonstrates: always run, never quarantined
+	toplvl  bool   // plain form only (the unit is about a file without namespace)
+	src     string
 }
 
-func unitCases() []*pcase {
-	var out []*pcase
+// unitCases returns the catalogue: the witness units (stage 0) and the rest (stage 1).
+func unitCases() (witnesses, rest []*pcase) {
 	seen := map[string]bool{}
+	n := 0
 	add := func(u unit, form, src string) {
 		name := "unit/" + u.name + "." + form
 		if seen[name] {
@@ -28,20 +31,30 @@ func unitCases() []*pcase {
 		if u.feats != "" {
 			fs = strings.Split(u.feats, ",")
 		}
-		out = append(out, &pcase{Name: name, Family: "unit", Rel: fmt.Sprintf("unit/u%04d.php", len(out)), Src: src, Features: fs})
+		fs = append(fs, syntacticFeatures(src)...)
+		c := &pcase{Name: name, Family: "unit", Rel: fmt.Sprintf("unit/u%04d.php", n), Src: src, Features: fs}
+		n++
+		if u.witness != "" {
+			c.Features = nil
+			witnesses = append(witnesses, c)
+		} else {
+			rest = append(rest, c)
+		}
 	}
 	for i, u := range units {
 		body := strings.TrimLeft(u.src, "\n")
 		in := func(ns string) string { return strings.ReplaceAll(body, "@NS@", ns) }
-		add(u, "ns", fmt.Sprintf("<?php\nnamespace U%d;\n%s", i, in(fmt.Sprintf("U%d\\", i))))
-		if !u.classy {
+		if !u.toplvl {
+			add(u, "ns", fmt.Sprintf("<?php\nnamespace U%d;\n%s", i, in(fmt.Sprintf("U%d\\", i))))
+		}
+		if !u.classy || u.toplvl {
 			add(u, "plain", "<?php\n"+in(""))
 		}
 		if u.wrap {
 			add(u, "fn", fmt.Sprintf("<?php\nnamespace W%d;\nfunction w() {\n%s}\nw();\necho \"done\\n\";\n", i, in(fmt.Sprintf("W%d\\", i))))
 		}
 	}
-	return out
+	return witnesses, rest
 }
 
 var units = []unit{
@@ -52,7 +65,7 @@ echo 0, " ", 7, " ", -3, " ", 9223372036854775807, " ", 0x1F, " ", 0b101, " ", 0
 	{name: "lit.float", feats: "float-lit", wrap: true, src: `
 echo 1.5, " ", 0.25, " ", 1e3, " ", 2.5e-3, " ", 1.0, " ", 100000000000000000000.0, " ", 0.1 + 0.2, "\n";
 `},
-	{name: "lit.float.negzero", feats: "float-negzero", src: `
+	{name: "lit.float.negzero", witness: "float-literal-negative-zero", feats: "float-negzero", src: `
 $z = -0.0; echo $z, " ", 1 / 4 * $z, "\n";
 `},
 	{name: "lit.float.inf", feats: "float-inf", src: `
@@ -160,7 +173,7 @@ while ($f <= 3) { $f = $f + 1; $c++; }
 echo $f, " ", $c, "\n";
 $s = "2"; if ($s <= 2) { echo "le"; } else { echo "gt"; } echo "\n";
 `},
-	{name: "var.varvar", feats: "varvar", src: `
+	{name: "var.varvar", witness: "variable-slice-go-type", feats: "varvar", src: `
 $name = "dyn"; $$name = 5; echo $dyn, " ", $$name, "\n";
 $k = "name"; echo $$k, "\n";
 `},
@@ -366,7 +379,7 @@ function r(): int { return "str"; }
 echo "before\n";
 echo r(), "\n";
 `},
-	{name: "fn.multi.return", feats: "zy-ext,types", src: `
+	{name: "fn.multi.return", witness: "multiple-return-type-mistranslated", feats: "zy-ext,types", src: `
 function pair(): string, int { return "abc", 123; }
 $s, $n = pair();
 echo $s, $n, "\n";
@@ -431,7 +444,7 @@ $y = 5; $z = "z";
 $f = function ($x) use ($y, $z) { $y = $y + 1; return $x + $y . $z; };
 echo $f(1), " "; $y = 100; echo $f(1), " ", $y, "\n";
 `},
-	{name: "clo.use.byref", feats: "closure,closure-use-ref", wrap: true, src: `
+	{name: "clo.use.byref", witness: "closure-use-by-reference", feats: "closure,closure-use-ref", wrap: true, src: `
 $count = 0; $log = [];
 $inc = function ($by) use (&$count, &$log) { $count += $by; $log[] = $count; return $count; };
 $inc(1); $inc(2); echo $count, " ", implode(",", $log), " ";
@@ -509,7 +522,7 @@ for ($k = 0; $k <= 4; $k++) {
 }
 echo "\n";
 `},
-	{name: "exc.plain.subclass.message", feats: "exceptions", classy: true, src: `
+	{name: "exc.plain.subclass.message", witness: "inherited-constructor-not-resolved", feats: "exceptions", classy: true, src: `
 class MyEx extends \Exception {}
 try { throw new MyEx("the message", 7); } catch (MyEx $e) { echo get_class($e), "|", $e->getMessage(), "|", $e->getCode(), "\n"; }
 try { throw new MyEx("second"); } catch (\Exception $e) { echo "as base|", $e->getMessage(), "\n"; }
@@ -526,7 +539,7 @@ try { try { throw new \InvalidArgumentException("ia"); } catch (\Exception $e) {
 try { $r = intdiv(1, 0); } catch (\Throwable $t) { echo "T:", get_class($t); } echo "\n";
 try { null_fn_xyz(); } catch (\Throwable $t) { echo "undefined caught"; } echo "\n";
 `},
-	{name: "exc.throw.in.switch.in.try", feats: "exceptions", src: `
+	{name: "exc.throw.in.switch.in.try", witness: "untagged-embedded-node-nil", feats: "exceptions", src: `
 function f($x) { try { switch ($x) { case 1: throw new \Exception("in switch"); default: echo "dflt,"; } } catch (\Exception $e) { echo "caught ", $e->getMessage(), ","; } finally { echo "fin;"; } }
 f(0); f(1); echo "\n";
 `},
@@ -585,7 +598,7 @@ class C2 extends C { const B = "override"; const D = 6; }
 echo C::A, C::B, C::C, count(C::ARR), C::ARR[1], " ", (new C)->viaSelf(), " ", C::sv(), " ", C2::A, C2::B, C2::D, (new C2)->viaSelf(), "\n";
 $o = new C2(); echo $o::B, " ", C::class, " ", $o::class, "\n";
 `},
-	{name: "cls.static.props", feats: "class,static-prop", classy: true, src: `
+	{name: "cls.static.props", witness: "class-static-members-dropped", feats: "class,static-prop", classy: true, src: `
 class S { public static $count = 0; public static $list = []; protected static $name = "S"; static function inc() { self::$count++; static::$list[] = self::$count; return self::$count; } static function name() { return static::$name; } }
 class S2 extends S { protected static $name = "S2"; }
 S::inc(); S::inc(); S2::inc();
@@ -604,7 +617,7 @@ class C extends B { function hook() { return "C>" . parent::hook(); } }
 $c = new C(); echo implode(",", $c->log), " ", $c->hello(), " ", $c->tmpl(), " ", (new A)->tmpl(), " ";
 echo $c instanceof A ? "Y" : "N", $c instanceof B ? "Y" : "N", (new A) instanceof B ? "Y" : "N", "\n";
 `},
-	{name: "cls.abstract", feats: "class,abstract", classy: true, src: `
+	{name: "cls.abstractmethod", witness: "abstract-method-go-type", feats: "class,abstract", classy: true, src: `
 abstract class Shape { protected $n; function __construct($n) { $this->n = $n; } abstract function area(); abstract protected function unit(): string; function describe() { return $this->n . "=" . $this->area() . $this->unit(); } }
 class Sq extends Shape { private $s; function __construct($s) { parent::__construct("sq"); $this->s = $s; } function area() { return $this->s * $this->s; } protected function unit(): string { return "u2"; } }
 echo (new Sq(3))->describe(), "\n";
@@ -625,7 +638,7 @@ $r = new R(); $t = new T();
 echo $r->area(), $r->name(), " ", $r instanceof HasArea ? "Y" : "N", $r instanceof Named ? "Y" : "N", $r instanceof Both ? "Y" : "N", $t instanceof HasArea ? "Y" : "N", $t instanceof Both ? "Y" : "N", " ", Named::PREFIX, "\n";
 function useArea(HasArea $h) { return $h->area(); } echo useArea($r), useArea($t), "\n";
 `},
-	{name: "cls.interface.only.instanceof", feats: "class,interface", classy: true, src: `
+	{name: "cls.interface.only.instanceof", witness: "interface-declarations-dropped", feats: "class,interface", classy: true, src: `
 interface Marker {}
 class WithMarker implements Marker {}
 class Without {}
@@ -681,7 +694,11 @@ $n = new N; $m = new N("arg"); $c = 'N2'; $fq = '@NS@N2'; $d = new $fq("dyn");
 echo $n->a, $m->a, $d->a, get_class($d), " ", (new N2)->self2()->a, get_class((new N2)->self2()), get_class((new N2)->static2()), " ", (new N("inline"))->a, "\n";
 $objs = [new N(1), new N(2)]; echo $objs[1]->a, "\n";
 `},
-	{name: "cls.anonymous", feats: "class,anon-class", classy: true, src: `
+	{name: "cls.anonymous", witness: "anonymous-class-go-type", classy: true, src: `
+$o = new class(5) { public $v; function __construct($v) { $this->v = $v; } function greet() { return "hi" . $this->v; } };
+echo $o->greet(), "\n";
+`},
+	{name: "cls.anon.with.interface", feats: "class", classy: true, src: `
 interface Greeter { function greet(); }
 $o = new class(5) implements Greeter { public $v; function __construct($v) { $this->v = $v; } function greet() { return "hi" . $this->v; } };
 echo $o->greet(), $o instanceof Greeter ? "Y" : "N", "\n";
@@ -743,6 +760,23 @@ class Bad { function __construct($x) { if ($x < 0) { throw new \InvalidArgumentE
 new Bad(1);
 new Bad(-5);
 echo "after\n";
+`},
+	{name: "cls.dynamic.static.call", witness: "dynamic-class-static-access", classy: true, src: `
+class Dy { static function sm($x) { return "sm" . $x; } }
+$cls = '@NS@Dy';
+echo $cls::sm(1), "\n";
+$o = new Dy();
+echo $o::sm(2), "\n";
+`},
+	{name: "cls.var.class.const", witness: "var-class-constant-translator-panic", classy: true, src: `
+class Vc {}
+$o = new Vc();
+echo $o::class, "\n";
+`},
+	{name: "cls.toplevel", witness: "toplevel-declarations-dropped", classy: true, toplvl: true, src: `
+class TopLevelUnitClass { public $v = 5; function get() { return $this->v + 1; } }
+$o = new TopLevelUnitClass();
+echo $o->get(), "\n";
 `},
 	{name: "cls.unknown.class", feats: "class", src: `
 echo "before\n";
